@@ -118,6 +118,8 @@ typedef struct {
   long eof_at;         /* >=0: file torn here: EOF at this offset */
   long write_fail_at;  /* >=0: write fails (ENOSPC) once pos+n > this */
   int close_fails;
+  int unbuffered;      /* !=0: the stream is not buffered: every write of the program reaches the device at once, so a full device is met by the very
+                          call that crosses write_fail_at (with stdio buffering it surfaces only at a flush, i.e. at a few positions of a given file) */
 } simfs_plan_t;
 typedef struct {
   uint64_t opens, open_failures, reads, short_reads, read_eio, torn_eof, writes, write_failures, closes,
